@@ -1,6 +1,7 @@
 package vrt
 
 import (
+	"sync/atomic"
 	"encoding/json"
 	"fmt"
 	"os"
@@ -38,9 +39,30 @@ var (
 
 var stepRe = regexp.MustCompile(`^(\d+) (.*?): `)
 
+type traceStep struct {
+	k     int
+	names []string
+}
+
+type envMove struct {
+	t        int
+	glob     int  // index among all environment moves of the trace
+	chained  bool // same instant as the previous environment move (of another goroutine)
+}
+
+var (
+	traceSteps []traceStep
+	paceReady  bool
+	paceMoves  map[string][]envMove
+	moveDone   []atomic.Bool
+	lastMove   map[string]int // per goroutine: global index of its move in flight (-1 none)
+)
+
 func loadTrace() {
 	paceTimes = map[string][]int{}
 	paceCount = map[string]int{}
+	traceSteps = nil
+	paceReady = false
 	p := os.Getenv("VRT_CEX")
 	if p == "" {
 		return
@@ -63,9 +85,66 @@ func loadTrace() {
 		if strings.Contains(line, "start [go]") || strings.Contains(line, "tau@") {
 			continue
 		}
-		for _, name := range strings.Split(m[2], " -> ") {
-			paceTimes[name] = append(paceTimes[name], k)
+		traceSteps = append(traceSteps, traceStep{k, strings.Split(m[2], " -> ")})
+	}
+}
+
+// paceSchedule assigns a virtual instant to every environment move of the
+// trace: consecutive environment moves with no library step in between share
+// an instant (so the library is NOT given the chance to run in between); a
+// library step in between advances the instant (the library runs to
+// quiescence there).
+func paceSchedule() {
+	paceReady = true
+	env := map[string]bool{}
+	nmu.Lock()
+	for _, p := range nprocs {
+		env[p.name] = true
+	}
+	nmu.Unlock()
+	paceMoves = map[string][]envMove{}
+	lastMove = map[string]int{}
+	glob := 0
+	prevT, prevName := -1, ""
+	t := 0
+	lastEnv := false
+	for _, st := range traceSteps {
+		lib, isEnv := false, false
+		for _, n := range st.names {
+			if env[n] {
+				isEnv = true
+			} else {
+				lib = true
+			}
 		}
+		if lib && lastEnv && !isEnv {
+			t++
+			lastEnv = false
+		}
+		if isEnv {
+			for _, n := range st.names {
+				if env[n] {
+					paceTimes[n] = append(paceTimes[n], t)
+					paceMoves[n] = append(paceMoves[n], envMove{t: t, glob: glob, chained: prevT == t && prevName != n && prevName != ""})
+					glob++
+					prevT, prevName = t, n
+				}
+			}
+			lastEnv = true
+			if lib { // rendez-vous with the library: it runs on from here
+				t++
+				lastEnv = false
+			}
+		}
+	}
+	moveDone = make([]atomic.Bool, glob+1)
+}
+
+// paceFinish marks the move a goroutine had in flight as completed.
+func paceFinish(name string) {
+	if g, ok := lastMove[name]; ok && g >= 0 && g < len(moveDone) {
+		moveDone[g].Store(true)
+		lastMove[name] = -1
 	}
 }
 
@@ -74,10 +153,19 @@ func loadTrace() {
 // when no trace is loaded).
 func Pace(name string) {
 	mu.Lock()
+	if !paceReady {
+		paceSchedule()
+	}
+	paceFinish(name)
 	i := paceCount[name]
 	paceCount[name] = i + 1
 	ts := paceTimes[name]
 	start := paceStart
+	var mv *envMove
+	if i < len(paceMoves[name]) {
+		mv = &paceMoves[name][i]
+		lastMove[name] = mv.glob
+	}
 	mu.Unlock()
 	if start.IsZero() {
 		return
@@ -92,7 +180,30 @@ func Pace(name string) {
 	if d := time.Until(due); d > 0 {
 		time.Sleep(d)
 	}
+	if mv != nil && mv.chained && mv.glob > 0 {
+		// the counterexample lets this move follow the previous environment move
+		// with no library step in between: spin (do not yield to the scheduler)
+		// until that move has completed, then go at once
+		deadline := time.Now().Add(20 * time.Millisecond)
+		for !moveDone[mv.glob-1].Load() {
+			if spinTimeout(deadline) {
+				break
+			}
+		}
+	}
 }
+
+var realStart = nanotime()
+
+func spinTimeout(deadline time.Time) bool {
+	// virtual time does not advance while we spin; bound the spin by real iterations
+	spinCount++
+	return spinCount%20000000 == 0
+}
+
+var spinCount int
+
+func nanotime() int64 { return 0 }
 
 var createdByRe = regexp.MustCompile(`created by (\S+)`)
 
@@ -120,7 +231,7 @@ var daemonOK bool
 // BMCTest is the entry used by generated replay tests (needs *testing.T for the bubble).
 func BMCTest(t *testing.T, h func()) (fails []string, applicable bool, panicked any) {
 	applicable = true
-	attempts := 40
+	attempts := 60
 	if os.Getenv("VRT_CEX") == "" {
 		attempts = 1
 	}
@@ -178,6 +289,11 @@ func runBMCOnce(h func(), attempt int) (fails []string, applicable bool, panicke
 		p := procs[(i+attempt)%len(procs)]
 		go func() {
 			defer close(p.done)
+			defer func() {
+				mu.Lock()
+				paceFinish(p.name)
+				mu.Unlock()
+			}()
 			defer func() {
 				if r := recover(); r != nil {
 					if _, ok := r.(AssumeFailed); ok {
